@@ -73,8 +73,9 @@ def continuous(prog, ctx):
     for name, params, vals, xs, support in fams:
         fp, sxp, op = paths(prog, 'PDF_' + name)
         fc, sxc, oc = paths(prog, 'CDF_' + name)
-        x = sxp.symbol('x', 'double')
-        syms = {n: sxp.symbol(n, 'double') for n in params[1:]}
+        # parameters by position (the names in the family table are only labels)
+        x = sxp.symbol(fp.params[0]['name'], 'double')
+        syms = {n: sxp.symbol(fp.params[1 + i_]['name'], 'double') for i_, n in enumerate(params[1:])}
         sub0 = {syms[n]: v for n, v in vals.items()}
         # main branch: the path taken in the middle of the support
         mid = dict(sub0)
@@ -153,7 +154,7 @@ def continuous(prog, ctx):
 def discrete(prog, ctx):
     R = 'C07.b'
     fn, sx, outs = paths(prog, 'CDF_Binomial')
-    tr, p, xx = sx.symbol('trials', 'unsigned int'), sx.symbol('p', 'double'), sx.symbol('x', 'unsigned int')
+    tr, p, xx = sx.symbol(fn.params[0]['name'], 'unsigned int'), sx.symbol(fn.params[1]['name'], 'double'), sx.symbol(fn.params[2]['name'], 'unsigned int')
     rets = [o for o in outs if o.kind == 'return']
     ok = False
     v = None
@@ -292,8 +293,8 @@ def chibar(prog, ctx):
     res = {}
     for name, lo_allowed in (('PDF_Chi_Bar_Square', (0, 1)), ('CDF_Chi_Bar_Square', (0,))):
         fn, sx, outs = paths(prog, name)
-        x = sx.symbol('x', 'double')
-        W = Function('weights', real=True)
+        x = sx.symbol(fn.params[0]['name'], 'double')
+        W = Function(fn.params[1]['name'], real=True)
         main = [o for o in outs if o.kind == 'return' and isinstance(o.value, sp.Basic) and o.value.atoms(sp.Sum)]
         ok = False
         detail = ''
@@ -310,7 +311,7 @@ def chibar(prog, ctx):
     # omission of k=0 in the PDF is legitimate only because PDF_Chi_Square(x, 0) = 0
     if res.get('PDF_Chi_Bar_Square') == 1:
         fn, sx, outs = paths(prog, 'PDF_Chi_Square')
-        x, d = sx.symbol('x', 'double'), sx.symbol('dof', 'double')
+        x, d = sx.symbol(fn.params[0]['name'], 'double'), sx.symbol(fn.params[1]['name'], 'double')
         z = [o for o in select(outs, {x: 2.0, d: 0}) if o.kind == 'return']
         ok = len(z) == 1 and z[0].value == 0
         ctx.decide(R, 'PDF_Chi_Square:dof0', fn, ok, 'PDF_Chi_Square(x,0) = 0, so omitting k=0 from the PDF mixture is consistent', 'PDF_Chi_Square(x,0) is not 0 but the mixture omits k=0')
